@@ -50,7 +50,8 @@ fn url_checks(u: &DIDUrl, input: Option<&str>) -> Option<String> {
 fn put_opt(obs: &mut Vec<i64>, o: Option<String>) { match o { Some(s) => { obs.push(1); put_bytes(obs, s.as_bytes()); } None => obs.extend([0, 0]) } }
 
 /// '%' (37) anywhere among the case integers (over-approximates "input contains '%'")
-pub fn classify(case: &[i64]) -> Option<&'static str> { if case.iter().skip(1).any(|x| *x == 37) { Some("K_pct") } else { None } }
+/// K_pct: the text handed over ENDS in a percent triple (the one shape the third-party parser still decides: CoreDID::parse refuses it outright)
+pub fn classify(case: &[i64]) -> Option<&'static str> { if case.len() >= 4 && case[case.len() - 3] == 37 { Some("K_pct") } else { None } }
 
 fn reparse(s: &str) -> Result<Result<DIDUrl, ()>, ()> {
   let s2 = s.to_string();
@@ -59,7 +60,7 @@ fn reparse(s: &str) -> Result<Result<DIDUrl, ()>, ()> {
 
 fn classes(bytes: &[u8], o: Outcome) -> Outcome {
   // known-finding classes are predicates on the input
-  if bytes.contains(&b'%') { return o.known("K_pct"); }
+  if bytes.len() >= 3 && bytes[bytes.len() - 3] == b'%' { return o.known("K_pct"); }
   o
 }
 fn colon_tail(s: &str) -> bool {
